@@ -125,22 +125,31 @@ def p1Loop : St := .while (.cmpI .ne (.ld2 "tree_nodes" (.var q_cur_node) (.lit 
 
 def p2Loop : St := .while (.cmpI .ne (.var q_cur_node) (.lit (-1))) p2Body
 
-def qInner : St :=
-  (.seq (.setI q__search_for_node2_root (.var q_root))
-  (.seq (.setF q__search_for_node2_key (.var q_max_key))
-  (.seq (.scope (.seq (.setI q__search_for_node2_cur_node (.var q__search_for_node2_root))
-      (.seq (searchLoop qSearchNames)
-      (.seq (.setI q__search_for_node2_ret0 (.var q__search_for_node2_cur_node)) .ret))))
-  (.seq (.setI q_key_node (.var q__search_for_node2_ret0))
-  (.seq (.ite (.cmpI .eq (.var q_key_node) (.lit (-1)))
-      (.seq (.setF q_ret0 (.lit (-10000000000000000000000) 1)) .ret)
-      .skip)
+def qSearch : St :=
+  (.scope (.seq (.setI q__search_for_node2_cur_node (.var q__search_for_node2_root))
+    (.seq (searchLoop qSearchNames)
+    (.seq (.setI q__search_for_node2_ret0 (.var q__search_for_node2_cur_node)) .ret))))
+
+def qPhase2 : St :=
+  (.seq (.setF q_max (.lit (-10000000000000000000000) 1))
+  (.seq (.setI q_cur_node (.var q_key_node)) (.seq p2Loop (.seq (.setF q_ret0 (.var q_max)) .ret))))
+
+def qTail : St :=
   (.seq (.setI q_cur_node (.var q_key_node))
   (.seq (.setF q_max (.lit (-10000000000000000000000) 1))
   (.seq p1Loop
   (.seq (.ite (.cmpF .gt (.var q_max) (.var q_gradient)) (.seq (.setF q_ret0 (.var q_max)) .ret) .skip)
-  (.seq (.setF q_max (.lit (-10000000000000000000000) 1))
-  (.seq (.setI q_cur_node (.var q_key_node)) (.seq p2Loop (.seq (.setF q_ret0 (.var q_max)) .ret)))))))))))))
+  qPhase2))))
+
+def qInner : St :=
+  (.seq (.setI q__search_for_node2_root (.var q_root))
+  (.seq (.setF q__search_for_node2_key (.var q_max_key))
+  (.seq qSearch
+  (.seq (.setI q_key_node (.var q__search_for_node2_ret0))
+  (.seq (.ite (.cmpI .eq (.var q_key_node) (.lit (-1)))
+      (.seq (.setF q_ret0 (.lit (-10000000000000000000000) 1)) .ret)
+      .skip)
+  qTail)))))
 
 theorem vsQuery_body : Gen.IL.vsQuery.body =
     (.seq (.ite (.cmpI .eq (.var "root") (.lit (-1)))
@@ -592,5 +601,295 @@ theorem p2Loop_spec (n : Nat) (sh : Sh) (k : Nat) : ∀ (m : Nat) (l : Sh) (j : 
       rw [hl2] at this
       rw [hq, hw]
       exact ⟨hfr2.trans this.1, this.2⟩
+
+/-! ### the whole of `_find_max_value_within_key` -/
+
+theorem qPhase2_spec (n : Nat) (sh : Sh) (l : Sh) (k : Nat) (r : Sh) (ctx : Ctx) (fuel : Nat) (s : State F)
+    (hv : VS s n) (hrun : s.ctl = .run) (hL : Linked (s.ia "tree_nodes") n (-1) sh) (hN : sh.idxs.Nodup)
+    (hplug : plug (.node l k r) ctx = sh) (hkey : s.ienv q_key_node = k)
+    (hnf : ∀ i ∈ k :: (l.rev ++ predsCtx ctx), Fl.lt (s.fenv q_max_key) (vAt (s.fa "tree_vals") i 0).v = false)
+    (hfuel : sh.size + sh.height + 2 ≤ fuel) :
+    let ang : Fv F := ⟨s.fenv q_ang⟩
+    let q := exec fuel qPhase2 s
+    q.ctl = .ret ∧
+      q.fenv q_ret0 = (walk ang ⟨s.fenv q_gradient⟩ (fun nd => itp nd ang)
+        ((l.rev ++ predsCtx ctx).map (nodeAt (s.fa "tree_vals"))) smallest).v ∧
+      q.fa = s.fa ∧ q.ia = s.ia ∧ q.shp = s.shp := by
+  intro ang q
+  have hpre : exec fuel (.seq (.setF q_max (.lit (-10000000000000000000000) 1)) (.setI q_cur_node (.var q_key_node))) s =
+      { s with fenv := setS s.fenv q_max (smallest : Fv F).v, ienv := setS s.ienv q_cur_node (k : Int) } := by
+    simp [exec, FE.ok_lit, FE.eval_lit, IE.ok_var, IE.eval_var, hkey, hrun, smallest]
+  have hlen : (l.rev ++ predsCtx ctx).length ≤ sh.size := by
+    have := predsCtx_length ctx (.node l k r)
+    rw [hplug] at this
+    simp only [Sh.size, List.length_append, Sh.rev_length] at this ⊢; omega
+  have hnk := nodup_of_plug ctx (.node l k r) (by rw [hplug]; exact hN)
+  have hne : ∀ i ∈ l.rev ++ predsCtx ctx, i ≠ k := by
+    intro i hi
+    rw [List.mem_append] at hi
+    rcases hi with hi | hi
+    · rw [Sh.rev_eq, List.mem_reverse] at hi
+      intro e; subst e
+      exact (Sh.ptr_ne_of_nodup l r i hnk).2.2.2.2.1 hi
+    · exact predsCtx_ne k ctx (.node l k r) (by simp [Sh.idxs]) (by rw [hplug]; exact hN) i hi
+  have hloop := p2Loop_spec n sh k sh.size l k r ctx fuel
+    { s with fenv := setS s.fenv q_max (smallest : Fv F).v, ienv := setS s.ienv q_cur_node (k : Int) }
+    (hv.of_eq rfl rfl rfl) hrun hL hN hplug (by simp [setS]) (by simpa [setS] using hkey) hlen
+    (by simpa [setS] using hnf) hne hfuel
+  simp only [if_true] at hloop
+  have e1 : (setS s.fenv q_max (smallest : Fv F).v) q_ang = s.fenv q_ang := by simp [setS]
+  have e2 : (setS s.fenv q_max (smallest : Fv F).v) q_gradient = s.fenv q_gradient := by simp [setS]
+  have e3 : (setS s.fenv q_max (smallest : Fv F).v) q_max = (smallest : Fv F).v := by simp [setS]
+  simp only [e1, e2, e3, List.nil_append, Fv.mk_v] at hloop
+  obtain ⟨hf, hw1, hw2⟩ := hloop
+  have hq : q = exec fuel (.seq p2Loop (.seq (.setF q_ret0 (.var q_max)) .ret))
+      { s with fenv := setS s.fenv q_max (smallest : Fv F).v, ienv := setS s.ienv q_cur_node (k : Int) } := by
+    simp only [q, qPhase2]
+    rw [exec_seq_assoc, exec_seq_run _ _ _ _ (by rw [hpre]; exact hrun), hpre]
+  rw [hq, ← walkE_fst]
+  generalize walkE ang ⟨s.fenv q_gradient⟩ (fun nd => itp nd ang)
+    ((l.rev ++ predsCtx ctx).map (nodeAt (s.fa "tree_vals"))) smallest = w at hw1 hw2 ⊢
+  by_cases hx : w.2 = true
+  · obtain ⟨h1, h2⟩ := hw1 hx
+    rw [exec_seq_stop _ _ _ _ (by rw [h1]; simp)]
+    exact ⟨h1, h2, hf.fa, hf.ia, hf.shp⟩
+  · obtain ⟨h1, h2⟩ := hw2 (by simpa using hx)
+    rw [exec_seq_run _ _ _ _ h1]
+    simp [exec, FE.ok_var, FE.eval_var, h1, h2, hf.fa, hf.ia, hf.shp]
+
+/-- the value `_find_max_value_within_key` computes once the key's node `k` is found at position `(l, k, r, ctx)` -/
+def queryPos (vals : List F) (n : Nat) (l : Sh) (ctx : Ctx) (ang g : Fv F) : Fv F :=
+  let s1 := shortCtx vals n smallest ctx
+  if g < s1 then s1
+  else walk ang g (fun nd => itp nd ang) ((l.rev ++ predsCtx ctx).map (nodeAt vals)) smallest
+
+theorem qTail_spec (n : Nat) (sh : Sh) (l : Sh) (k : Nat) (r : Sh) (ctx : Ctx) (fuel : Nat) (s : State F)
+    (hv : VS s n) (hrun : s.ctl = .run) (hL : Linked (s.ia "tree_nodes") n (-1) sh) (hN : sh.idxs.Nodup)
+    (hplug : plug (.node l k r) ctx = sh) (hkey : s.ienv q_key_node = k)
+    (hnf : ∀ i ∈ k :: (l.rev ++ predsCtx ctx), Fl.lt (s.fenv q_max_key) (vAt (s.fa "tree_vals") i 0).v = false)
+    (hfuel : sh.size + sh.height + 2 ≤ fuel) :
+    let q := exec fuel qTail s
+    q.ctl = .ret ∧
+      q.fenv q_ret0 = (queryPos (s.fa "tree_vals") n l ctx ⟨s.fenv q_ang⟩ ⟨s.fenv q_gradient⟩).v ∧
+      q.fa = s.fa ∧ q.ia = s.ia ∧ q.shp = s.shp := by
+  intro q
+  obtain ⟨hl, hc, _⟩ := unplug ctx (.node l k r) (by rw [hplug]; exact hL) (by rw [hplug]; exact hN)
+  have hph := plug_height ctx (.node l k r)
+  rw [hplug] at hph
+  have hpre : exec fuel (.seq (.setI q_cur_node (.var q_key_node)) (.setF q_max (.lit (-10000000000000000000000) 1))) s =
+      { s with ienv := setS s.ienv q_cur_node (k : Int), fenv := setS s.fenv q_max (smallest : Fv F).v } := by
+    simp [exec, FE.ok_lit, FE.eval_lit, IE.ok_var, IE.eval_var, hkey, hrun, smallest]
+  have h1 := p1Loop_spec n ctx k fuel
+    { s with ienv := setS s.ienv q_cur_node (k : Int), fenv := setS s.fenv q_max (smallest : Fv F).v }
+    (hv.of_eq rfl rfl rfl) hrun hc hl.2.2.2.1 hl.1 (by simp [setS]) (by have := Sh.height_le_size sh; omega)
+  obtain ⟨h1a, h1b, h1c⟩ := h1
+  have e3 : (setS s.fenv q_max (smallest : Fv F).v) q_max = (smallest : Fv F).v := by simp [setS]
+  simp only [e3, Fv.mk_v] at h1c
+  generalize hs1 : exec fuel p1Loop
+    { s with ienv := setS s.ienv q_cur_node (k : Int), fenv := setS s.fenv q_max (smallest : Fv F).v } = s1 at h1a h1b h1c
+  have hq : q = exec fuel (.seq (.ite (.cmpF .gt (.var q_max) (.var q_gradient)) (.seq (.setF q_ret0 (.var q_max)) .ret) .skip)
+      qPhase2) s1 := by
+    simp only [q, qTail]
+    rw [exec_seq_assoc, exec_seq_run _ _ _ _ (by rw [hpre]; exact hrun), hpre, exec_seq_run _ _ _ _ (by rw [hs1]; exact h1a), hs1]
+  have hg : s1.fenv q_gradient = s.fenv q_gradient := by rw [h1b.fenv _ (by simp [p1fv])]; simp [setS]
+  have ha : s1.fenv q_ang = s.fenv q_ang := by rw [h1b.fenv _ (by simp [p1fv])]; simp [setS]
+  have hk : s1.fenv q_max_key = s.fenv q_max_key := by rw [h1b.fenv _ (by simp [p1fv])]; simp [setS]
+  have hkn : s1.ienv q_key_node = k := by rw [h1b.ienv _ (by simp [p1iv])]; simpa [setS] using hkey
+  rw [hq]
+  unfold queryPos
+  by_cases hx : Fl.lt (s.fenv q_gradient) (shortCtx (s.fa "tree_vals") n smallest ctx).v = true
+  · rw [if_pos (show (⟨s.fenv q_gradient⟩ : Fv F) < _ from hx)]
+    simp [exec, BE.ok, BE.eval, FE.ok_var, FE.eval_var, CmpOp.eval, hg, h1c, hx, h1a, h1b.fa, h1b.ia, h1b.shp]
+  · rw [if_neg (show ¬ (⟨s.fenv q_gradient⟩ : Fv F) < _ from hx)]
+    have h2 := qPhase2_spec n sh l k r ctx fuel s1 (h1b.vs (hv.of_eq rfl rfl rfl)) h1a (by rw [h1b.ia]; exact hL) hN hplug hkn
+      (by rw [hk, h1b.fa]; exact hnf) hfuel
+    rw [ha, hg, h1b.fa, h1b.ia, h1b.shp] at h2
+    have hite : exec fuel (.ite (.cmpF .gt (.var q_max) (.var q_gradient)) (.seq (.setF q_ret0 (.var q_max)) .ret) .skip) s1
+        = s1 := by
+      simp [exec, BE.ok, BE.eval, FE.ok_var, FE.eval_var, CmpOp.eval, hg, h1c, hx]
+    rw [exec_seq_run _ _ _ _ (by rw [hite]; exact h1a), hite]
+    simpa using h2
+
+def qsiv : List String := q__search_for_node2_ret0 :: qSearchNames.iv
+
+theorem qSearch_spec (n : Nat) (sh : Sh) (fuel : Nat) (s : State F) (hv : VS s n) (hrun : s.ctl = .run)
+    (hL : Linked (s.ia "tree_nodes") n (-1) sh) (hroot : s.ienv q__search_for_node2_root = sh.ptr)
+    (hf : sh.height < fuel) :
+    let q := exec fuel qSearch s
+    q.ctl = .run ∧ Frame qsiv qSearchNames.fv [] s q ∧
+      q.ienv q__search_for_node2_ret0 = findPtr (s.fa "tree_vals") ⟨s.fenv q__search_for_node2_key⟩ sh := by
+  intro q
+  have hN : qSearchNames.OK := by simp [SearchNames.OK, qSearchNames]
+  have h := searchLoop_spec qSearchNames hN n sh (-1) fuel
+    { s with ienv := setS s.ienv q__search_for_node2_cur_node (s.ienv q__search_for_node2_root) } (hv.of_eq rfl rfl rfl)
+    hrun hL (by simp [qSearchNames, hroot]) hf
+  have e1 : qSearchNames.cur = q__search_for_node2_cur_node := rfl
+  have e2 : qSearchNames.key = q__search_for_node2_key := rfl
+  simp only [e1, e2] at h
+  obtain ⟨h1, h2, h3⟩ := h
+  generalize hsB : exec fuel (searchLoop qSearchNames)
+    { s with ienv := setS s.ienv q__search_for_node2_cur_node (s.ienv q__search_for_node2_root) } = sB at h1 h2 h3
+  have hq : q = { sB with ienv := setS sB.ienv q__search_for_node2_ret0 (sB.ienv q__search_for_node2_cur_node) } := by
+    simp only [q, qSearch]
+    rw [exec_scope, exec_seq_run _ _ _ _ (by simp [exec, IE.ok_var, hrun])]
+    simp only [exec_setI _ _ _ _ (IE.ok_var _ _), IE.eval_var]
+    rw [exec_seq_run _ _ _ _ (by rw [hsB]; exact h1), hsB]
+    simp [exec, IE.ok_var, IE.eval_var, h1]
+  rw [hq]
+  refine ⟨h1, ?_, by simpa [setS] using h3⟩
+  have hfr0 : Frame qsiv qSearchNames.fv [] s
+      { s with ienv := setS s.ienv q__search_for_node2_cur_node (s.ienv q__search_for_node2_root) } := by
+    refine ⟨rfl, rfl, rfl, rfl, ?_, fun _ _ => rfl, fun _ _ => rfl⟩
+    intro v hv'
+    simp only [qsiv, SearchNames.iv, qSearchNames, List.mem_cons, List.not_mem_nil, or_false, not_or] at hv'
+    simp [setS, hv']
+  refine (hfr0.trans (h2.mono (fun v h => List.mem_cons_of_mem _ h) (fun _ h => h) (fun _ h => h))).trans ?_
+  refine ⟨rfl, rfl, rfl, rfl, ?_, fun _ _ => rfl, fun _ _ => rfl⟩
+  intro v hv'
+  simp only [qsiv, List.mem_cons, not_or] at hv'
+  simp [setS, hv'.1]
+
+/-- what the generated program computes, on the zipper: search, then `queryPos` at the node found -/
+def queryZ (vals : List F) (n : Nat) (sh : Sh) (K ang g : Fv F) : Fv F :=
+  match findZ vals K sh [] with
+  | none => smallest
+  | some (l, _, _, c) => queryPos vals n l c ang g
+
+/-- the code's `raise ValueError` is never reached: no in-order predecessor of the key's node has a key above `K` -/
+def QueryNoFail (vals : List F) (sh : Sh) (K : Fv F) : Prop :=
+  match findZ vals K sh [] with
+  | none => True
+  | some (l, _, _, c) => ∀ i ∈ l.rev ++ predsCtx c, Fl.lt K.v (vAt vals i 0).v = false
+
+theorem qInner_spec (n : Nat) (sh : Sh) (fuel : Nat) (s : State F) (hv : VS s n) (hrun : s.ctl = .run)
+    (hL : Linked (s.ia "tree_nodes") n (-1) sh) (hN : sh.idxs.Nodup) (hroot : s.ienv q_root = sh.ptr)
+    (hnf : QueryNoFail (s.fa "tree_vals") sh ⟨s.fenv q_max_key⟩) (hfuel : sh.size + sh.height + 2 ≤ fuel) :
+    let q := exec fuel qInner s
+    q.ctl = .ret ∧
+      q.fenv q_ret0 = (queryZ (s.fa "tree_vals") n sh ⟨s.fenv q_max_key⟩ ⟨s.fenv q_ang⟩ ⟨s.fenv q_gradient⟩).v ∧
+      q.fa = s.fa ∧ q.ia = s.ia ∧ q.shp = s.shp := by
+  intro q
+  have hpre : exec fuel (.seq (.setI q__search_for_node2_root (.var q_root))
+      (.setF q__search_for_node2_key (.var q_max_key))) s =
+      { s with ienv := setS s.ienv q__search_for_node2_root sh.ptr,
+               fenv := setS s.fenv q__search_for_node2_key (s.fenv q_max_key) } := by
+    simp [exec, FE.ok_var, FE.eval_var, IE.ok_var, IE.eval_var, hroot, hrun]
+  have hS := qSearch_spec n sh fuel
+    { s with ienv := setS s.ienv q__search_for_node2_root sh.ptr,
+             fenv := setS s.fenv q__search_for_node2_key (s.fenv q_max_key) }
+    (hv.of_eq rfl rfl rfl) hrun hL (by simp [setS]) (by have := Sh.height_le_size sh; omega)
+  obtain ⟨hS1, hS2, hS3⟩ := hS
+  have e0 : (setS s.fenv q__search_for_node2_key (s.fenv q_max_key)) q__search_for_node2_key = s.fenv q_max_key := by
+    simp [setS]
+  simp only [e0] at hS3
+  generalize hsS : exec fuel qSearch
+    { s with ienv := setS s.ienv q__search_for_node2_root sh.ptr,
+             fenv := setS s.fenv q__search_for_node2_key (s.fenv q_max_key) } = sS at hS1 hS2 hS3
+  -- after `key_node = ...`
+  have hq : q = exec fuel (.seq (.ite (.cmpI .eq (.var q_key_node) (.lit (-1)))
+        (.seq (.setF q_ret0 (.lit (-10000000000000000000000) 1)) .ret) .skip) qTail)
+      { sS with ienv := setS sS.ienv q_key_node (sS.ienv q__search_for_node2_ret0) } := by
+    simp only [q, qInner]
+    rw [exec_seq_assoc, exec_seq_run _ _ _ _ (by rw [hpre]; exact hrun), hpre,
+      exec_seq_run _ _ _ _ (by rw [hsS]; exact hS1), hsS,
+      exec_seq_run _ _ _ _ (by simp [exec, IE.ok_var, hS1])]
+    simp only [exec_setI _ _ _ _ (IE.ok_var _ _), IE.eval_var]
+  -- what the frame keeps
+  have hfe : ∀ v, v ∉ qSearchNames.fv → v ≠ q__search_for_node2_key → sS.fenv v = s.fenv v := by
+    intro v h1 h2; rw [hS2.fenv v h1]; simp [setS, h2]
+  have hang : sS.fenv q_ang = s.fenv q_ang := hfe _ (by simp [SearchNames.fv, qSearchNames]) (by decide)
+  have hgr : sS.fenv q_gradient = s.fenv q_gradient := hfe _ (by simp [SearchNames.fv, qSearchNames]) (by decide)
+  have hmk : sS.fenv q_max_key = s.fenv q_max_key := hfe _ (by simp [SearchNames.fv, qSearchNames]) (by decide)
+  rw [hq]
+  unfold queryZ
+  unfold QueryNoFail at hnf
+  cases hfz : findZ (s.fa "tree_vals") ⟨s.fenv q_max_key⟩ sh [] with
+  | none =>
+    have hp := findZ_none _ _ sh [] hfz
+    rw [hp] at hS3
+    simp [exec, BE.ok, BE.eval, IE.ok_var, IE.ok_lit, IE.eval_var, IE.eval_lit, cmpInt, setS, hS3, FE.ok_lit, FE.eval_lit,
+      hS1, hS2.fa, hS2.ia, hS2.shp, smallest]
+  | some pos =>
+    obtain ⟨l, k, r, c⟩ := pos
+    rw [hfz] at hnf
+    obtain ⟨hp, hplug, hk1, hk2⟩ := findZ_some _ _ sh [] l k r c hfz
+    simp only [plug] at hplug
+    rw [hp] at hS3
+    have hite : exec fuel (.ite (.cmpI .eq (.var q_key_node) (.lit (-1)))
+        (.seq (.setF q_ret0 (.lit (-10000000000000000000000) 1)) .ret) .skip)
+        { sS with ienv := setS sS.ienv q_key_node (sS.ienv q__search_for_node2_ret0) } =
+        { sS with ienv := setS sS.ienv q_key_node (k : Int) } := by
+      have : ¬ ((k : Int) = -1) := by omega
+      simp [exec, BE.ok, BE.eval, IE.ok_var, IE.ok_lit, IE.eval_var, IE.eval_lit, cmpInt, setS, hS3, this]
+    rw [exec_seq_run _ _ _ _ (by rw [hite]; exact hS1), hite]
+    have hT := qTail_spec n sh l k r c fuel { sS with ienv := setS sS.ienv q_key_node (k : Int) }
+      ((hS2.vs (hv.of_eq rfl rfl rfl)).of_eq rfl rfl rfl) hS1 (by rw [hS2.ia]; exact hL) hN hplug (by simp [setS])
+      (by
+        intro i hi
+        rw [hmk, hS2.fa]
+        rcases List.mem_cons.mp hi with rfl | hi
+        · have : ¬ (Fl.lt (s.fenv q_max_key) (vAt (s.fa "tree_vals") i 0).v = true) := hk1
+          simpa using this
+        · exact hnf i hi)
+      hfuel
+    obtain ⟨t1, t2, t3, t4, t5⟩ := hT
+    refine ⟨t1, ?_, t3.trans hS2.fa, t4.trans hS2.ia, t5.trans hS2.shp⟩
+    rw [t2]
+    simp only [hang, hgr, hS2.fa]
+
+/-! ### `_max_grad_in_status_struct` -/
+
+/-- the generated `_max_grad_in_status_struct` computes `queryZ` -/
+theorem vsQuery_run (s : State F) (fuel n : Nat) (hv : VS s n) (hrun : s.ctl = .run) (sh : Sh)
+    (hL : Linked (s.ia "tree_nodes") n (-1) sh) (hN : sh.idxs.Nodup) (hroot : s.ienv "root" = sh.ptr)
+    (hnf : QueryNoFail (s.fa "tree_vals") sh ⟨s.fenv "distance"⟩) (hfuel : sh.size + sh.height + 2 ≤ fuel) :
+    let q := Gen.IL.vsQuery.run s fuel
+    q.ctl = .ret ∧
+      q.fenv "ret0" = (queryZ (s.fa "tree_vals") n sh ⟨s.fenv "distance"⟩ ⟨s.fenv "angle"⟩ ⟨s.fenv "gradient"⟩).v ∧
+      q.fa = s.fa ∧ q.ia = s.ia := by
+  simp only [Prog.run, vsQuery_body]
+  cases sh with
+  | nil =>
+    simp only [Sh.ptr] at hroot
+    simp [exec, BE.ok, BE.eval, IE.ok_var, IE.ok_lit, IE.eval_var, IE.eval_lit, cmpInt, hroot, FE.ok_lit, FE.eval_lit, hrun,
+      queryZ, findZ, smallest]
+  | node l i r =>
+    simp only [Sh.ptr] at hroot
+    have hne : ¬ ((i : Int) = -1) := by omega
+    have hite : exec fuel (.ite (.cmpI .eq (.var "root") (.lit (-1)))
+        (.seq (.setF "ret0" (.lit (-10000000000000000000000) 1)) .ret) .skip) s = s := by
+      simp [exec, BE.ok, BE.eval, IE.ok_var, IE.ok_lit, IE.eval_var, IE.eval_lit, cmpInt, hroot, hne]
+    rw [exec_seq_run _ _ _ _ (by rw [hite]; exact hrun), hite]
+    have hpre : exec fuel (.seq (.setI q_root (.var "root")) (.seq (.setF q_max_key (.var "distance"))
+        (.seq (.setF q_ang (.var "angle")) (.setF q_gradient (.var "gradient"))))) s =
+        { s with ienv := setS s.ienv q_root (i : Int),
+                 fenv := setS (setS (setS s.fenv q_max_key (s.fenv "distance")) q_ang (s.fenv "angle")) q_gradient
+                   (s.fenv "gradient") } := by
+      simp [exec, FE.ok_var, FE.eval_var, IE.ok_var, IE.eval_var, hroot, hrun, setS]
+    have hI := qInner_spec n (.node l i r) fuel
+      { s with ienv := setS s.ienv q_root (i : Int),
+               fenv := setS (setS (setS s.fenv q_max_key (s.fenv "distance")) q_ang (s.fenv "angle")) q_gradient
+                 (s.fenv "gradient") }
+      (hv.of_eq rfl rfl rfl) hrun hL hN (by simp [setS, Sh.ptr]) (by simpa [setS] using hnf) hfuel
+    have e1 : (setS (setS (setS s.fenv q_max_key (s.fenv "distance")) q_ang (s.fenv "angle")) q_gradient
+        (s.fenv "gradient")) q_max_key = s.fenv "distance" := by simp [setS]
+    have e2 : (setS (setS (setS s.fenv q_max_key (s.fenv "distance")) q_ang (s.fenv "angle")) q_gradient
+        (s.fenv "gradient")) q_ang = s.fenv "angle" := by simp [setS]
+    have e3 : (setS (setS (setS s.fenv q_max_key (s.fenv "distance")) q_ang (s.fenv "angle")) q_gradient
+        (s.fenv "gradient")) q_gradient = s.fenv "gradient" := by simp [setS]
+    simp only [e1, e2, e3] at hI
+    obtain ⟨hI1, hI2, hI3, hI4, hI5⟩ := hI
+    have hreg : ∀ (a b c d e f : St) (s' : State F),
+        exec fuel (.seq a (.seq b (.seq c (.seq d (.seq e f))))) s' =
+          exec fuel (.seq (.seq a (.seq b (.seq c d))) (.seq e f)) s' := by
+      intro a b c d e f s'
+      have := seq5_regroup fuel a b c d (.seq e f) .skip s'
+      simp only [exec_seq, exec_skip] at this ⊢
+      by_cases h1 : (exec fuel a s').ctl = .run <;> simp [h1]
+      by_cases h2 : (exec fuel b (exec fuel a s')).ctl = .run <;> simp [h2]
+      by_cases h3 : (exec fuel c (exec fuel b (exec fuel a s'))).ctl = .run <;> simp [h3]
+    rw [hreg, exec_seq_run _ _ _ _ (by rw [hpre]; exact hrun), hpre, exec_seq, exec_scope]
+    simp only [hI1, if_true]
+    simp [exec, FE.ok_var, FE.eval_var, hI2, hI3, hI4]
 
 end XrsVerif.ILVs
